@@ -116,3 +116,31 @@ func verifC14Churn() {
 	}
 }
 
+
+func verifSamePrimary(x, y value.Primary) bool {
+	switch a := x.(type) {
+	case *value.Integer:
+		b, ok := y.(*value.Integer)
+		return ok && a.Raw() == b.Raw()
+	case *value.Float:
+		b, ok := y.(*value.Float)
+		return ok && (a.Raw() == b.Raw() || (a.Raw() != a.Raw() && b.Raw() != b.Raw()))
+	case *value.String:
+		b, ok := y.(*value.String)
+		return ok && a.Raw() == b.Raw()
+	case *value.Datetime:
+		b, ok := y.(*value.Datetime)
+		return ok && a.Raw().Equal(b.Raw())
+	case *value.Boolean:
+		b, ok := y.(*value.Boolean)
+		return ok && a.Raw() == b.Raw()
+	case *value.Ternary:
+		b, ok := y.(*value.Ternary)
+		return ok && a.Ternary() == b.Ternary()
+	case *value.Null:
+		_, ok := y.(*value.Null)
+		return ok
+	}
+	return false
+}
+
